@@ -352,4 +352,41 @@ def committedScriptBytes : Elem → Option Bytes
   | .dissat => none
   | .push b => some b
 
+/-! ### key admission at the boundary (`inner::pk_from_slice`, `script_from_stack_elem::<Segwitv0>`)
+
+Segwit v0 spends with an UNCOMPRESSED key are refused before any evaluation: the witness-program
+key of p2wpkh / sh-wpkh by `pk_from_slice(.., require_compressed = true)`, the keys inside a p2wsh /
+sh-wsh witness script by parsing it in the `Segwitv0` context.  (Script execution itself accepts
+such spends: BIP143's "only compressed keys" is Core's SCRIPT_VERIFY_WITNESS_PUBKEYTYPE, a relay
+policy flag, not part of `Spec/Spend.verifySpend`; the refusal is the library's context rule.) -/
+
+inductive KeyErr | pubkeyParse | uncompressed
+  deriving DecidableEq, Repr
+
+/-- `inner::pk_from_slice`; `keyParse` = `bitcoin::PublicKey::from_slice` succeeds -/
+def pkFromSlice (keyParse : Bytes → Bool) (requireCompressed : Bool) (b : Bytes) : Except KeyErr Unit :=
+  if !keyParse b then .error .pubkeyParse
+  else if requireCompressed && b.length != 33 then .error .uncompressed
+  else .ok ()
+
+mutual
+/-- the keys a script names (key pushes; a raw key hash names none) -/
+def msKeys : Ms → List Key
+  | .pkK k | .pkH k => [k]
+  | .multi _ ks | .sortedMulti _ ks | .multiA _ ks | .sortedMultiA _ ks => ks
+  | .alt x | .swap x | .check x | .dupIf x | .verify x | .nonZero x | .zeroNotEqual x => msKeys x
+  | .andV x y | .andB x y | .orB x y | .orD x y | .orC x y | .orI x y => msKeys x ++ msKeys y
+  | .andOr x y z => msKeys x ++ msKeys y ++ msKeys z
+  | .thresh _ xs => msListKeys xs
+  | _ => []
+def msListKeys : MsList → List Key
+  | .nil => []
+  | .cons x xs => msKeys x ++ msListKeys xs
+end
+
+/-- the `Segwitv0` context's key rule (`Segwitv0::check_pk`: no uncompressed key) on a witness
+script that is otherwise a valid miniscript -/
+def segwitScriptAdmits (ke : KeyEnv) (ms : Ms) : Bool :=
+  (msKeys ms).all fun k => (ke.ser k).length == 33
+
 end MsVerif.Interp
